@@ -1,5 +1,7 @@
 package sym
 
+import "golang.org/x/tools/go/ssa"
+
 // Symbolic UTF-8 decoding for `range` over a string whose bytes are symbolic
 // (length concrete). The width of each rune must be concrete to advance, so the
 // decoder forks over the (at most five) encoding classes of the leading byte.
@@ -44,3 +46,83 @@ func (t *Task) decodeRuneSym(bs []*Term) (*Term, int) {
 	}
 	return c.Const(32, 0xFFFD), 1
 }
+
+// encodeRuneSym: UTF-8 encoding of a symbolic rune (32-bit term). The number of
+// bytes must be concrete, so the encoder forks over the four length classes.
+func (t *Task) encodeRuneSym(r *Term) []*Term {
+	p := t.p
+	c := p.C
+	k := func(v uint64) *Term { return c.Const(32, v) }
+	b := func(x *Term) *Term { return c.Extract(x, 7, 0) }
+	shr := func(x *Term, n uint64) *Term { return c.Bin(OpLShr, x, k(n)) }
+	and := func(x *Term, m uint64) *Term { return c.Bin(OpBvAnd, x, k(m)) }
+	or := func(x *Term, m uint64) *Term { return c.Bin(OpBvOr, x, k(m)) }
+	if r.W != 32 {
+		if r.W < 32 {
+			r = c.Sext(r, 32)
+		} else {
+			r = c.Extract(r, 31, 0)
+		}
+	}
+	// invalid runes (negative, surrogates, > 0x10FFFF) encode as U+FFFD
+	invalid := c.OrN(c.Slt(r, k(0)), c.And(c.Ule(k(0xD800), r), c.Ule(r, k(0xDFFF))), c.Ult(k(0x10FFFF), r))
+	if p.Branch(invalid) {
+		return []*Term{c.Const(8, 0xEF), c.Const(8, 0xBF), c.Const(8, 0xBD)}
+	}
+	if p.Branch(c.Ult(r, k(0x80))) {
+		return []*Term{b(r)}
+	}
+	if p.Branch(c.Ult(r, k(0x800))) {
+		return []*Term{b(or(shr(r, 6), 0xC0)), b(or(and(r, 0x3F), 0x80))}
+	}
+	if p.Branch(c.Ult(r, k(0x10000))) {
+		return []*Term{b(or(shr(r, 12), 0xE0)), b(or(and(shr(r, 6), 0x3F), 0x80)), b(or(and(r, 0x3F), 0x80))}
+	}
+	return []*Term{b(or(shr(r, 18), 0xF0)), b(or(and(shr(r, 12), 0x3F), 0x80)), b(or(and(shr(r, 6), 0x3F), 0x80)), b(or(and(r, 0x3F), 0x80))}
+}
+
+func (p *Path) strFromTerms(bs []*Term) StrVal {
+	o := p.newObj(KArray, len(bs))
+	for i, x := range bs {
+		o.Slots[i] = x
+	}
+	return StrVal{Arr: o, Len: p.C.Const(64, uint64(len(bs)))}
+}
+
+func init() {
+	// unicode/utf8.RuneCountInString / RuneCount on symbolic bytes: walk the
+	// string with the symbolic decoder (forks over encoding classes, not over
+	// the 256 values of a table index).
+	rc := func(t *Task, fn *ssa.Function, args []Value) Value {
+		p := t.p
+		var arr *Obj
+		var off int
+		var ln *Term
+		switch s := args[0].(type) {
+		case SliceVal:
+			arr, off, ln = s.Arr, s.Off, s.Len
+		case StrVal:
+			arr, off, ln = s.Arr, s.Off, s.Len
+		}
+		n := p.ConcInt(ln, "length in RuneCount")
+		bs := make([]*Term, n)
+		conc := true
+		for i := 0; i < n; i++ {
+			bs[i] = arr.Slots[off+i].(*Term)
+			conc = conc && bs[i].IsConst()
+		}
+		if conc {
+			return t.callBody(fn, args, nil)
+		}
+		cnt := 0
+		for i := 0; i < n; {
+			_, w := t.decodeRuneSym(bs[i:])
+			i += w
+			cnt++
+		}
+		return p.C.Const(64, uint64(cnt))
+	}
+	utf8Intrinsics = map[string]intrinsic{"unicode/utf8.RuneCountInString": rc, "unicode/utf8.RuneCount": rc}
+}
+
+var utf8Intrinsics map[string]intrinsic
